@@ -77,20 +77,20 @@ package mysql
 //@   props C12 C14
 //@   safety
 //@   requires len(packet.header) == 4
-//@   ensures never-empty: err == nil ==> len(data) >= 1
+//@   ensures never-empty: err == nil ==> len(data) >= 1 && !sameregion(data, packet.header)
 //@   ensures err != nil ==> data == nil
 
 //@ func (packet *Packet) ReadPacket(connection net.Conn) (err error)
 //@   props C12 C14
 //@   safety
 //@   requires len(packet.header) == 4
-//@   ensures err == nil ==> len(packet.data) >= 1
+//@   ensures err == nil ==> len(packet.data) >= 1 && !sameregion(packet.data, packet.header)
 
 //@ func ReadPacket(connection net.Conn) (p *Packet, err error)
 //@   props C12 C14
 //@   safety
 //@   ensures (err == nil) <==> (p != nil)
-//@   ensures err == nil ==> len(p.data) >= 1 && len(p.header) == 4
+//@   ensures err == nil ==> len(p.data) >= 1 && len(p.header) == 4 && !sameregion(p.data, p.header)
 
 //@ func NewPacket() (p *Packet)
 //@   props C12 C14
@@ -124,7 +124,7 @@ package mysql
 //@ func (packet *Packet) replaceQuery(newQuery string)
 //@   props C12 C14
 //@   safety
-//@   requires len(packet.header) == 4 && len(packet.data) >= 1
+//@   requires len(packet.header) == 4 && len(packet.data) >= 1 && !sameregion(packet.data, packet.header)
 //@   ensures length: len(packet.data) == len(newQuery) + 1
 //@   ensures command-kept: packet.data[0] == old(packet.data[0])
 //@   ensures query-replaced: forall(i, 0, len(newQuery), packet.data[1 + i] == newQuery[i])
